@@ -143,21 +143,24 @@ impl Nw {
         }
     }
     /// one solve; every closure call is recorded; a panic is data
-    fn solve(&self, fam: &Fam, variant: &str, rec: &Rec) -> Result<Result<Vec<Cmplx>, Vec<Cmplx>>, String> {
+    fn solve(&self, fam: &Fam, variant: &str, rec: &Rec, cap: usize) -> Result<Result<Vec<Cmplx>, Vec<Cmplx>>, String> {
         let n = fam.n;
+        // watchdog: a solver that never stops evaluating is cut off by a panic raised from inside the user closure
+        // (data, reported as a violation of "bounded work"), instead of hanging the harness
+        let tick = |rec: &Rec| { if rec.borrow().len() > cap { panic!("verif: evaluation budget exceeded"); } };
         match self {
-            Nw::F(o) => { let f = |x: f64| -> f64 { rec.borrow_mut().push((false, vec![c(x, 0.0)])); fam.scalar(c(x, 0.0)).real };
+            Nw::F(o) => { let f = |x: f64| -> f64 { tick(rec); rec.borrow_mut().push((false, vec![c(x, 0.0)])); fam.scalar(c(x, 0.0)).real };
                 guarded(|| o.solve(&f)).map(|r| r.map(|x| vec![c(x, 0.0)]).map_err(|x| vec![c(x, 0.0)])) }
-            Nw::C(o) => { let f = |z: Cmplx| -> Cmplx { rec.borrow_mut().push((false, vec![z])); fam.scalar(z) };
+            Nw::C(o) => { let f = |z: Cmplx| -> Cmplx { tick(rec); rec.borrow_mut().push((false, vec![z])); fam.scalar(z) };
                 quiet(|| guarded(|| o.solve(&f))).map(|r| r.map(|z| vec![z]).map_err(|z| vec![z])) }
             Nw::V(o) => {
-                let f = |x: Vec64| -> Vec64 { let z = from_vec64(&x); rec.borrow_mut().push((false, z.clone())); if z.len() != n { return x; } to_vec64(&fam.system(&z)) };
-                let j = |x: Vec64| -> Mat64 { let z = from_vec64(&x); rec.borrow_mut().push((true, z.clone())); to_mat64(&fam.jac(&z), n) };
+                let f = |x: Vec64| -> Vec64 { tick(rec); let z = from_vec64(&x); rec.borrow_mut().push((false, z.clone())); if z.len() != n { return x; } to_vec64(&fam.system(&z)) };
+                let j = |x: Vec64| -> Mat64 { tick(rec); let z = from_vec64(&x); rec.borrow_mut().push((true, z.clone())); to_mat64(&fam.jac(&z), n) };
                 let r = if variant == "vecj" { guarded(|| o.solve_jacobian(&f, &j)) } else { guarded(|| o.solve(&f)) };
                 r.map(|r| r.map(|x| from_vec64(&x)).map_err(|x| from_vec64(&x))) }
             Nw::W(o) => {
-                let f = |z: Vector<Cmplx>| -> Vector<Cmplx> { rec.borrow_mut().push((false, z.vec.clone())); if z.size() != n { return z; } Vector::<Cmplx>::create(fam.system(&z.vec)) };
-                let j = |z: Vector<Cmplx>| -> Matrix<Cmplx> { rec.borrow_mut().push((true, z.vec.clone())); to_cmat(&fam.jac(&z.vec), n) };
+                let f = |z: Vector<Cmplx>| -> Vector<Cmplx> { tick(rec); rec.borrow_mut().push((false, z.vec.clone())); if z.size() != n { return z; } Vector::<Cmplx>::create(fam.system(&z.vec)) };
+                let j = |z: Vector<Cmplx>| -> Matrix<Cmplx> { tick(rec); rec.borrow_mut().push((true, z.vec.clone())); to_cmat(&fam.jac(&z.vec), n) };
                 let r = if variant == "cvecj" { guarded(|| o.solve_jacobian(&f, &j)) } else { guarded(|| o.solve(&f)) };
                 r.map(|r| r.map(|x| x.vec.clone()).map_err(|x| x.vec.clone())) }
         }
@@ -207,7 +210,8 @@ pub fn exec(case0: &Value, out: &mut Out) {
         out.ev(json!({"op": "begin", "cid": cid, "call": call, "variant": variant, "n": n, "maxit": lim, "pb": pb, "g": pbits(&guess, cx),
                       "tolb": bits(tol), "deltab": bits(delta)}));
         let rec: Rec = RefCell::new(vec![]);
-        let res = nw.solve(&fam, &variant, &rec);
+        let cap = 50 * (lim + 1) * (2 * n + 3) + 200;
+        let res = nw.solve(&fam, &variant, &rec, cap);
         for (idx, (isjac, z)) in rec.borrow().iter().enumerate() {
             out.ev(json!({"op": "eval", "cid": cid, "call": call, "idx": idx + 1, "fn": if *isjac { "jac" } else { "f" }, "x": pbits(z, cx)}));
         }
